@@ -751,6 +751,14 @@ Proof.
 Qed.
 Lemma hk_read_errpipe nm fd : hk nm (read_errpipe fd).
 Proof. unfold read_errpipe. apply hk_bind; [apply hk_gets|]. intros nf. apply hk_read_retry. Qed.
+Lemma hk_waitpid_retry nm fuel pid : hk nm (waitpid_retry fuel pid).
+Proof.
+  induction fuel as [|f IH]; cbn [waitpid_retry]; [apply hk_crash|].
+  apply hk_bind; [apply hk_sys_waitpid|]. intros [r st]. destruct (r <? 0); [|apply hk_ret].
+  apply hk_bind; [apply hk_get_errno|]. intros e. destruct (e =? EINTR); [exact IH|apply hk_ret].
+Qed.
+Lemma hk_waitpid_child nm pid : hk nm (waitpid_child pid).
+Proof. unfold waitpid_child. apply hk_bind; [apply hk_gets|]. intros nf. apply hk_waitpid_retry. Qed.
 
 Lemma process_fork_heap L own except ck w r w' :
   wf w -> 0 <= w_cur w -> kp (w_cur w) ck -> hk true ck -> hq L own w ->
@@ -796,7 +804,7 @@ Proof.
   assert (H8 : hq L own w8).
   { destruct (0 <? (if q <? 0 then 0 else decode_int (runs_bytes rs))).
     - apply bind_inv in E8 as ([rw stw] & w8' & Ew & E8).
-      pose proof (H_neutral _ _ _ _ _ _ (hk_sys_waitpid false _) H7 Ew) as Hw.
+      pose proof (H_neutral _ _ _ _ _ _ (hk_waitpid_child false _) H7 Ew) as Hw.
       destruct (rw <? 0).
       + apply bind_inv in E8 as (e & w8'' & Eg & E8). apply gets_inv in Eg as [-> ->]. apply ret_inv in E8 as [_ ->]. exact Hw.
       + apply ret_inv in E8 as [_ ->]. exact Hw.
@@ -885,7 +893,7 @@ Proof.
   apply bind_inv in E0 as ([q rs] & w6 & E6 & E0). pose proof (H_neutral _ _ _ _ _ _ (hk_read_errpipe false _) H5 E6) as H6.
   cbv beta iota zeta in E0.
   destruct (0 <? (if q <? 0 then 0 else decode_int (runs_bytes rs))).
-  - apply bind_inv in E0 as ([rw stw] & w7 & E7 & E0). pose proof (H_neutral _ _ _ _ _ _ (hk_sys_waitpid false _) H6 E7) as H7.
+  - apply bind_inv in E0 as ([rw stw] & w7 & E7 & E0). pose proof (H_neutral _ _ _ _ _ _ (hk_waitpid_child false _) H6 E7) as H7.
     cbv beta iota in E0. apply bind_inv in E0 as (r8 & w8 & E8 & E0).
     assert (H8 : hq L (envown (Some env) (pgown pg)) w8).
     { destruct (rw <? 0).
